@@ -132,3 +132,66 @@ MUTATIONS += [
          old="                self.t = (1 + (1 + 4 * t_old**2) ** 0.5) / 2",
          new="                self.t = (1 + (1 + 2 * t_old**2) ** 0.5) / 2"),
 ]
+
+MUTATIONS += [
+    # ---- C14
+    dict(name="c14-cg-drop-lamz", file="sigpy/app.py", props=["C14"],
+         old="                util.axpy(AHy, self.lamda, self.z)",
+         new="                pass"),
+    dict(name="c14-admm-rho-GHG", file="sigpy/app.py", props=["C14"],
+         old="                AHA += self.rho * self.G.H * self.G",
+         new="                AHA += self.G.H * self.G"),
+    dict(name="c14-gm-z-sign", file="sigpy/app.py", props=["C14"],
+         old="                        util.axpy(gradf_x, self.lamda, x - self.z)",
+         new="                        util.axpy(gradf_x, self.lamda, x + self.z)"),
+    # ---- C15
+    dict(name="c15-gs-double-increment", file="sigpy/alg.py", props=["C15"],
+         old="            xp.absolute(xp.absolute(self.A * self.x) - self.y)\n        )\n",
+         new="            xp.absolute(xp.absolute(self.A * self.x) - self.y)\n        )\n        self.iter += 1\n"),
+    dict(name="c15-pdhg-primal-resid", file="sigpy/alg.py", props=["C15"],
+         old="        self.resid = (resid_x**2 + resid_u**2 + resid_ext**2) ** 0.5",
+         new="        self.resid = resid_x"),
+    dict(name="c15-cg-done-early", file="sigpy/alg.py", props=["C15", "C12"],
+         old="            or self.resid <= self.tol\n        )\n\n\nclass PrimalDualHybridGradient",
+         new="            or self.resid <= max(self.tol, 1e-3)\n        )\n\n\nclass PrimalDualHybridGradient"),
+    # ---- C16
+    dict(name="c16-weights-no-sqrt", file="sigpy/mri/linop.py", props=["C16"],
+         old="            P = sp.linop.Multiply(F.oshape, weights**0.5)\n\n        A = P * A\n\n    if comm is not None:\n        C = sp.linop.AllReduceAdjoint(ishape, comm, in_place=True)\n        A = A * C\n\n    A.repr_str",
+         new="            P = sp.linop.Multiply(F.oshape, weights)\n\n        A = P * A\n\n    if comm is not None:\n        C = sp.linop.AllReduceAdjoint(ishape, comm, in_place=True)\n        A = A * C\n\n    A.repr_str"),
+    dict(name="c16-batch-overlap", file="sigpy/mri/linop.py", props=["C16"],
+         old="                    mps[c * coil_batch_size : ((c + 1) * coil_batch_size)],\n                    coord=coord,",
+         new="                    mps[max(c * coil_batch_size - (num_coils % coil_batch_size > 0 and c == num_coil_batches - 1), 0) : max(c * coil_batch_size - (num_coils % coil_batch_size > 0 and c == num_coil_batches - 1), 0) + min(coil_batch_size, num_coils - c * coil_batch_size)],\n                    coord=coord,"),
+    # ---- C17
+    dict(name="c17-phase-ref-coil1", file="sigpy/mri/app.py", props=["C17"],
+         old="            mps *= xp.conj(mps[0] / xp.abs(mps[0]))",
+         new="            mps *= xp.conj(mps[-1] / xp.abs(mps[-1]))"),
+    dict(name="c17-crop-ge", file="sigpy/mri/app.py", props=["C17"],
+         old="            mps *= max_eig > self.crop",
+         new="            mps *= max_eig >= self.crop"),
+    # ---- C18
+    dict(name="c18-calib-shift", file="sigpy/mri/samp.py", props=["C18"],
+         old="        int(nx / 2 - calib[-1] / 2) : int(nx / 2 + calib[-1] / 2),",
+         new="        int(nx / 2 - calib[-1] / 2) + 1 : int(nx / 2 + calib[-1] / 2) + 1,"),
+    dict(name="c18-rng-not-restored", file="sigpy/mri/samp.py", props=["C18"],
+         old="    if seed is not None:\n        np.random.set_state(rand_state)",
+         new="    if seed is not None and np.sum(mask) % 7:\n        np.random.set_state(rand_state)\n    else:\n        np.random.random()"),
+    dict(name="c18-crop-le", file="sigpy/mri/samp.py", props=["C18"],
+         old="            mask *= r < 1", new="            mask *= r <= 1"),
+    # ---- C19
+    dict(name="c19-abrm-conj-sign", file="sigpy/mri/rf/sim.py", props=["C19"],
+         old="            at = av * a - xp.conj(bv) * b\n            bt = bv * a + xp.conj(av) * b\n            a = at\n            b = bt\n\n        if balanced:",
+         new="            at = av * a + xp.conj(bv) * b\n            bt = bv * a + xp.conj(av) * b\n            a = at\n            b = bt\n\n        if balanced:"),
+    dict(name="c19-ab2rf-angle", file="sigpy/mri/rf/slr.py", props=["C19"],
+         old="        rf[ii] = 2 * theta * np.exp(1j * psi)",
+         new="        rf[ii] = 2 * np.sin(theta) * np.exp(1j * psi)"),
+    dict(name="c19-hp-half-phase", file="sigpy/mri/rf/sim.py", props=["C19"],
+         old="        z = xp.exp(1j / 2 * (xx * xp.sum(gamgdt, axis=0) + Nt * dom0dt))\n        a = a * z\n        b = b * z",
+         new="        z = xp.exp(1j / 2 * (xx * xp.sum(gamgdt, axis=0) + Nt * dom0dt))\n        a = a * z\n        b = b * xp.conj(z)"),
+    # ---- C20
+    dict(name="c20-ramp-floor", file="sigpy/mri/rf/trajgrad.py", props=["C20"],
+         old="                ramppts = int(np.ceil(newgmax / dgdt / dt))",
+         new="                ramppts = max(int(np.floor(newgmax / dgdt / dt)), 1)"),
+    dict(name="c20-mintrap-ramp-round", file="sigpy/mri/rf/trajgrad.py", props=["C20"],
+         old="        ramppts = int(np.ceil(np.max(flat) / dgdt / dt))\n        ramp_up = (\n            np.linspace(0, ramppts, num=ramppts + 1) / ramppts * np.max(flat)\n        )",
+         new="        ramppts = max(int(np.round(np.max(flat) / dgdt / dt)), 1)\n        ramp_up = (\n            np.linspace(0, ramppts, num=ramppts + 1) / ramppts * np.max(flat)\n        )"),
+]
